@@ -34,6 +34,8 @@ enum Defect {
 	ForeignAbove,
 	/// ids returned in the other id kind (string vs number)
 	OtherIdKind,
+	/// exactly one id (of this position) returned in the other id kind, all others exact
+	OtherIdKindOne(usize),
 }
 
 impl Defect {
@@ -47,6 +49,7 @@ impl Defect {
 			Defect::ForeignBelow => "foreign-id-below",
 			Defect::ForeignAbove => "foreign-id-above",
 			Defect::OtherIdKind => "other-id-kind",
+			Defect::OtherIdKindOne(_) => "one-id-of-other-kind",
 		}
 	}
 }
@@ -62,6 +65,9 @@ struct Case {
 	/// WS only: other operations in flight (number of batches, number of single calls) before the batch under test
 	others: (usize, usize),
 	seed: u64,
+	/// calls made (and answered) on the client before the batch, so that the batch's ids do not start at 0 and may
+	/// straddle a decimal digit boundary ("9" / "10")
+	warm: usize,
 }
 
 type Entry = Result<Value, (i32, Option<String>)>;
@@ -136,6 +142,18 @@ fn craft_reply(c: &Case, entries: &[(Value, String)], r: &mut Rng) -> (String, V
 				answered[p] = true;
 			}
 		}
+		Defect::OtherIdKindOne(pos) => {
+			for &p in &c.perm {
+				if p == *pos {
+					let x = num(&entries[p].0);
+					let id = if c.string_ids { json!(x) } else { json!(x.to_string()) };
+					parts.push(answer(p, id));
+				} else {
+					parts.push(answer(p, entries[p].0.clone()));
+				}
+				answered[p] = true;
+			}
+		}
 		Defect::OtherIdKind => {
 			for &p in &c.perm {
 				let x = num(&entries[p].0);
@@ -193,7 +211,7 @@ fn judge(c: &Case, o: &Outcome, client: &str) -> Vec<(String, String)> {
 							} else if o.sent_err.get(i) == Some(&false) {
 								bad("wrong-outcome", format!("entry {i} is the scripted error but a success was sent for it"));
 							}
-						} else if complete || (o.answered.get(i) == Some(&true) && c.defect != Defect::OtherIdKind) {
+						} else if complete || (o.answered.get(i) == Some(&true) && !matches!(c.defect, Defect::OtherIdKind | Defect::OtherIdKindOne(_))) {
 							// an entry that was answered exactly must not degrade to a placeholder error
 							if complete {
 								bad("answer-lost", format!("entry {i} is a library error ({code}) although its answer was in the reply"));
@@ -239,6 +257,20 @@ async fn run_ws(c: &Case) -> (Outcome, Vec<(String, String)>) {
 			let res = cl.request::<Value, _>("call", rpc_params![tag.clone()]).await;
 			(vec![tag], res.map(|v| (vec![Ok(v)], 1, 0)).map_err(|e| err_kind(&e)))
 		}));
+	}
+	for k in 0..c.warm {
+		let cl = client.clone();
+		let t = tokio::spawn(async move { cl.request::<Value, _>("call", rpc_params![format!("warm{k}")]).await.is_ok() });
+		for (_, m) in srv.collect_until_idle(Duration::from_millis(5)).await {
+			if let WireMsg::Single(q) = m {
+				if let Some(id) = &q.id {
+					srv.push_text(ok_response(id, json!({"tag": q.tag, "n": 0})));
+				}
+			}
+		}
+		if !matches!(tokio::time::timeout(Duration::from_secs(30), t).await, Ok(Ok(true))) {
+			extra_violations.push(("warmup-call-failed/complete/ws".to_string(), format!("call {k} before the batch")));
+		}
 	}
 	tokio::time::sleep(Duration::from_millis(1)).await;
 	let cl = client.clone();
@@ -348,7 +380,7 @@ async fn run_http(c: &Case) -> Outcome {
 		.build("http://localhost:9944")
 		.expect("http client");
 	// shift the id counter so that ranges do not start at 0
-	for _ in 0..(c.seed % 3) {
+	for _ in 0..(if c.warm > 0 { c.warm as u64 } else { c.seed % 3 }) {
 		let _ = http.request::<Value, _>("call", rpc_params!["warmup"]).await;
 	}
 	let mut bb = BatchRequestBuilder::new();
@@ -394,7 +426,42 @@ fn all_cases(max_n: usize, seed: u64, sample_above: usize) -> Vec<Case> {
 					string_ids: r.chance(1, 3),
 					others: (r.usize(3), r.usize(3)),
 					seed: r.next_u64(),
+					warm: 0,
 				});
+			}
+		}
+	}
+	out
+}
+
+/// Batches whose ids straddle a decimal digit boundary (first id 6..10 or 95..100 after `warm` earlier calls, or more
+/// than ten entries), answered in identity / reverse / lexicographic-by-id-text / seeded order, complete or with one id of
+/// the other JSON type. No other requests in flight, so the first id is `warm`.
+fn boundary_cases(seed: u64, reps: usize) -> Vec<Case> {
+	let mut r = Rng::new(seed ^ 0xb0);
+	let mut out = Vec::new();
+	for _ in 0..reps {
+		for (warm, n) in [(0usize, 11usize), (0, 12), (6, 5), (7, 4), (8, 3), (9, 2), (8, 12), (95, 7), (98, 3), (99, 4)] {
+			for order in 0..4 {
+				let mut perm: Vec<usize> = (0..n).collect();
+				match order {
+					0 => {}
+					1 => perm.reverse(),
+					2 => perm.sort_by_key(|i| (warm + i).to_string()),
+					_ => r.shuffle(&mut perm),
+				}
+				for defect in [Defect::Complete, Defect::OtherIdKindOne(r.usize(n))] {
+					out.push(Case {
+						n,
+						perm: perm.clone(),
+						defect,
+						errs: (0..n).map(|_| r.chance(1, 5)).collect(),
+						string_ids: r.bool(),
+						others: (0, 0),
+						seed: r.next_u64(),
+						warm,
+					});
+				}
 			}
 		}
 	}
@@ -403,7 +470,7 @@ fn all_cases(max_n: usize, seed: u64, sample_above: usize) -> Vec<Case> {
 
 fn witness(c: &Case, o: &Outcome, client: &str) -> Value {
 	json!({"client": client, "n": c.n, "permutation": c.perm, "defect": format!("{:?}", c.defect), "errors_at": c.errs, "string_ids": c.string_ids,
-		"others_in_flight": [c.others.0, c.others.1], "wire_ids": o.wire_ids, "reply": o.reply_text, "result": format!("{:?}", o.result), "seed": c.seed})
+		"others_in_flight": [c.others.0, c.others.1], "calls_before_the_batch": c.warm, "wire_ids": o.wire_ids, "reply": o.reply_text, "result": format!("{:?}", o.result), "seed": c.seed})
 }
 
 fn run_cases(cases: Vec<Case>, ws: bool, http: bool) -> (Evidence, Vec<Violation>) {
@@ -422,7 +489,7 @@ fn run_cases(cases: Vec<Case>, ws: bool, http: bool) -> (Evidence, Vec<Violation
 			} else {
 				ev.count("ws_call_failed", 1);
 			}
-			ev.nontrivial(&("ws", c.n, &c.perm, &c.defect, &c.errs, c.string_ids));
+			ev.nontrivial(&("ws", c.n, &c.perm, &c.defect, &c.errs, c.string_ids, c.warm));
 			ev.sample_class(&format!("ws/{}", c.defect.class()), witness(&c, &o, "ws"));
 			for (sig, d) in vs {
 				violations.push(Violation::new(sig, d, witness(&c, &o, "ws")));
@@ -438,7 +505,7 @@ fn run_cases(cases: Vec<Case>, ws: bool, http: bool) -> (Evidence, Vec<Violation
 			} else {
 				ev.count("http_call_failed", 1);
 			}
-			ev.nontrivial(&("http", c.n, &c.perm, &c.defect, &c.errs, c.string_ids));
+			ev.nontrivial(&("http", c.n, &c.perm, &c.defect, &c.errs, c.string_ids, c.warm));
 			ev.sample_class(&format!("http/{}", c.defect.class()), witness(&c, &o, "http"));
 			for (sig, d) in vs {
 				violations.push(Violation::new(sig, d, witness(&c, &o, "http")));
@@ -465,6 +532,8 @@ fn main() {
 		 replacing another entry, every extra duplicate, foreign id below / above the range, ids of the other kind} (a seeded \
 		 tenth of the defective product above n = 5); each case on the real async (WebSocket) client over a scripted \
 		 transport with 0-2 other batches and 0-2 single calls in flight, and on the real HTTP client behind a scripted layer. \
+		 Digit-boundary family: batches whose ids straddle 9/10 or 99/100 (calls made before the batch, or more than ten entries), \
+		 answered in identity / reverse / lexicographic-by-id-text / seeded order, complete or with exactly one id of the other JSON type. \
 		 Non-trivial = every case (each is one complete batch round trip); distinct by all case parameters.",
 	);
 	ev.assume("a reply whose ids are of the other kind (\"7\" for 7): the statement does not say whether that answers the entry; only foreign tags, length and counts are judged there");
@@ -476,9 +545,11 @@ fn main() {
 		let w = &w["witness"];
 		let n = w["n"].as_u64().unwrap_or(1) as usize;
 		let want = (w["defect"].as_str().unwrap_or("").to_string(), w["permutation"].clone());
-		all_cases(n, ctx.seed, 99)
-			.into_iter()
-			.filter(|c| c.n == n && format!("{:?}", c.defect) == want.0 && json!(c.perm) == want.1)
+		let warm = w["calls_before_the_batch"].as_u64().unwrap_or(0) as usize;
+		let pool = if warm > 0 || n > 7 { boundary_cases(ctx.seed, 40) } else { all_cases(n, ctx.seed, 99) };
+		pool.into_iter()
+			.filter(|c| c.n == n && c.warm == warm && format!("{:?}", c.defect) == want.0 && json!(c.perm) == want.1)
+			.take(2)
 			.map(|mut c| {
 				c.errs = w["errors_at"].as_array().map(|a| a.iter().map(|b| b.as_bool().unwrap_or(false)).collect()).unwrap_or(c.errs.clone());
 				c.string_ids = w["string_ids"].as_bool().unwrap_or(false);
@@ -486,7 +557,9 @@ fn main() {
 			})
 			.collect()
 	} else {
-		all_cases(ctx.tier.pick(5, 7), ctx.seed, 5)
+		let mut v = all_cases(ctx.tier.pick(5, 7), ctx.seed, 5);
+		v.extend(boundary_cases(ctx.seed, ctx.tier.pick(2, 40)));
+		v
 	};
 	ev.set("exhaustive_part", json!({"all_permutations_x_all_defects_up_to_n": 5}));
 	let replay = ctx.replay.is_some();
